@@ -493,7 +493,25 @@ pub fn check_step(op: &Op, prev: &Snap, new: &Snap, operand: &Operand, pts: &[Ve
         };
         let ok = match (&exp, &got) {
             (None, TEv::Undef(..)) => true,
-            (Some(e), TEv::Val(_, g)) => e == g,
+            (Some(e), TEv::Val(node, g)) => {
+                if e == g {
+                    true
+                } else if e.len() != g.len() {
+                    false
+                } else {
+                    // Exact equality is what the exact regime promises while every intermediate value is
+                    // representable. Far from the origin (translated histories, |x| >= 2^18) or with large row
+                    // activity (>= 2^36) the library's f64 products round; there the comparison is relative to
+                    // the activity of the terminal row (1e-10: thirty operations of rounding stay far below,
+                    // a wrong piece or coefficient is far above).
+                    let nd = new.node(*node);
+                    (0..g.len()).all(|i| {
+                        let act: f64 = nd.mat.get(i).map_or(0.0, |r| r.iter().zip(x.iter()).map(|(a, v)| (a * v).abs()).sum::<f64>()) + nd.bias.get(i).map_or(0.0, |b| b.abs());
+                        let far = x.iter().any(|v| v.abs() >= 262144.0) || act >= 68719476736.0;
+                        far && (e[i].sub(&g[i])).to_f64().abs() <= 1e-10 * (1.0 + act)
+                    })
+                }
+            }
             _ => false,
         };
         if !ok {
